@@ -5,18 +5,18 @@ import subprocess
 
 TV = "Every instance of a catalogue + seeded-random family is run through the real crates (rebuilt from /repo's working tree with the hooks on); the recorded behaviour (NDJSON) is consumed event by event by a TLA+ trace specification, which evaluates the property's meaning-layer definitions on every state / cell / step; the design itself is model-checked exhaustively in a bounded model where one exists. Bounded, but with an oracle that is independent of the code and applied to everything observed."
 CLAIMED = {
- "C01": ("tlc-trace", "TLC trace validation (spec/TraceLR.tla): LR(1) certificate on the implementation's automaton, table cells re-derived with Yacc's rules, parses re-run on LRParse.tla, language oracle from derivations and the canonical LR(1) parser", "5 C01"),
- "C02": ("tlc-trace", "TLC replay of recorded Pager decisions (pick/exact/merge/new) through Pager.tla actions and gc; canonical LR(1) collection and parser as oracle", "5 C02"),
+ "C01": ("tlc-trace", "TLC trace validation (spec/TraceLR.tla): LR(1) certificate on the implementation's automaton, table cells re-derived with Yacc's rules, parses re-run on LRParse.tla, language oracle from derivations and the canonical LR(1) parser; bounded model MC_Pager.tla (every successor order -> table -> every input up to length L)", "5 C01"),
+ "C02": ("tlc-trace", "TLC replay of recorded Pager decisions (pick/exact/merge/new) through Pager.tla actions and gc; canonical LR(1) collection and parser as oracle; bounded model MC_Pager.tla (Pager under every successor order; LALR merging refuted)", "5 C02"),
  "C03": ("tlc-trace", "TLC re-derivation of every table cell and conflict list with StateTable.YaccCell; production precedence from the source's %prec; %expect rule via build histories on CTBuild.tla", "5 C03"),
  "C04": ("tlc-trace", "TLC trace validation of error positions against first-non-prefix (derivations) and the canonical LR(1) parser", "5 C04"),
- "C05": ("tlc-trace", "TLC trace validation: reported repairs applied on the specification's LR machine; recover_in / recover_out hook events against the replay of the first repair", "5 C05"),
- "C06": ("tlc-trace", "TLC trace validation: reported repair set against the exhaustive minimum-cost reference search CPCTPlus.RefRepairs; ranking laws", "5 C06"),
- "C07": ("tlc-trace", "TLC trace validation of the error-list / outcome laws on long erroneous inputs; non-returning parses observed through a killed child process", "5 C07"),
+ "C05": ("tlc-trace", "TLC trace validation: reported repairs applied on the specification's LR machine; recover_in / recover_out hook events against the replay of the first repair; bounded model MC_CPCT.tla (the CPCT+ algorithm as coded against the reference search, two wrong variants refuted)", "5 C05"),
+ "C06": ("tlc-trace", "TLC trace validation: reported repair set against the exhaustive minimum-cost reference search CPCTPlus.RefRepairs; ranking laws; bounded model MC_CPCT.tla (buckets, node merging, first-success cut-off and sweep, unfolding, ranking = RefRepairs for every erroneous input)", "5 C06"),
+ "C07": ("tlc-trace", "TLC trace validation of the error-list / outcome laws on long erroneous inputs; non-returning parses observed through a killed child process; bounded model MC_Recover.tla (the parse loop with recovery as a state machine, every input up to length L, any minimum-cost repair applied)", "5 C07"),
  "C08": ("tlc-trace", "TLC trace validation: reduce callbacks (order, arguments, span, parameter) against LRParse.tla; generic-tree mode against action mode", "5 C08"),
  "C09": ("tlc-lexer", "TLC bounded model of Lexer.tla over every small definition x every match environment + trace validation of lrlex runs with the regex engine as environment", "5 C09"),
  "C10": ("tlc-src", "TLC evaluation of YaccSrc.GrammarOf(document) against every accessor of the parsed grammar, over seeded-random documents in several renderings (layout, comments, quoting, declaration order; Original / Grmtools / Eco)", "5 C10"),
- "C11": ("tlc-src", "TLC evaluation of LexSrc.LexerDefOf(document) (rules, start states, targets, Unescape, spans) and of lexing under the flags the document puts in force", "5 C11"),
- "C12": ("tlc-src", "TLC evaluation of the outcome contract (Totality.tla) on every outcome of the section / Yacc / lex parsers over mutated specifications, each run in a killable child process", "5 C12"),
+ "C11": ("tlc-src", "TLC evaluation of LexSrc.LexerDefOf(document) (rules, start states, targets, Unescape, spans) and of lexing under the flags the document puts in force; every CTLexerBuilder flag setter against the run-time lexer (TraceCTRT.tla); MarkMap.tla (header/settings map and merge operator: bounded model of the merge laws + trace validation of random operation sequences)", "5 C11"),
+ "C12": ("tlc-src", "TLC evaluation of the outcome contract (Totality.tla) on every outcome of the section / Yacc / lex parsers over mutated specifications, each run in a killable child process; the three parsers transcribed (Header.tla, LexParse.tla, YaccParse.tla): trace specifications predict every recorded outcome exactly (AST / lexer definition / section, all spans, errors in order), bounded models check termination and the contract on every short text", "5 C12"),
  "C13": ("tlc-ctrt", "translation validation: generated modules compiled by rustc and run next to the run-time pipeline; TLC compares lexemes, recorded action values / trees and errors with repair sets (TraceCTRT.tla)", "5 C13"),
  "C14": ("tlc-pipe", "TLC trace validation of the stutter law Pipeline.Reconstitute on full observations before / after wincode serialise + _reconstitute, all widths and both encodings", "5 C14"),
  "C15": ("tlc-pipe", "TLC: OnceInit.tla (all interleavings of first use) + trace validation of Pipeline.BuildDeterministic over K independent processes, generated modules, and 8-thread first use of compiled generated parsers", "5 C15"),
@@ -24,15 +24,15 @@ CLAIMED = {
  "C17": ("tlc-trace", "TLC comparison of FIRST / FOLLOW / nullable / path / cost queries with declarative least fixed points; rule_min_costs transcribed to characterise non-termination", "5 C17"),
  "C18": ("tlc-ctbuild", "TLC bounded model of CTBuild.tla (all histories to a depth) + trace validation of build histories run on the real builders, one process per build, against clean builds", "5 C18"),
  "C19": ("tlc-nlc", "TLC bounded model of NewlineCache.tla (all texts x chunkings) + trace validation of the real cache over the same exhaustive family and random texts", "5 C19"),
- "C20": ("tlc-width", "TLC bounded model of the width guards (Width.tla) + trace validation of u8/u16/u32 builds of grammars sitting in the 2^8 / 2^16 windows", "5 C20"),
+ "C20": ("tlc-width", "TLC bounded model of the width guards (Width.tla) + trace validation of u8/u16/u32 builds of grammars sitting in the 2^8 / 2^16 windows; the guard lemma for all natural counts by Apalache (WidthApa.tla, length 0)", "5 C20"),
 }
 ENGINES = [
- dict(name="tlc-trace", path="/verif/spec/TraceLR.tla", kind_free_text="TLA+ modules Grammar, Analyses, LR1, Pager, StateTable, LRParse, CPCTPlus + trace specification TraceLR, checked with TLC against NDJSON recorded by harness/vh (lr) from the real crates"),
+ dict(name="tlc-trace", path="/verif/spec/TraceLR.tla", kind_free_text="TLA+ modules Grammar, Analyses, LR1, Pager, StateTable, LRParse, CPCTPlus, CanonTable + trace specification TraceLR and bounded models MC_Pager, MC_CPCT, MC_Recover, checked with TLC against NDJSON recorded by harness/vh (lr) from the real crates"),
  dict(name="tlc-lexer", path="/verif/spec/Lexer.tla", kind_free_text="Lexer.tla, MC_Lexer (bounded model), TraceLex (trace specification)"),
  dict(name="tlc-ctbuild", path="/verif/spec/CTBuild.tla", kind_free_text="CTBuild.tla, MC_CTBuild (bounded model), TraceCT (trace specification) over histories run by vh ctstep"),
  dict(name="tlc-nlc", path="/verif/spec/NewlineCache.tla", kind_free_text="NewlineCache.tla, MC_NewlineCache, TraceNLC"),
- dict(name="tlc-width", path="/verif/spec/Width.tla", kind_free_text="Width.tla, MC_Width, TraceWidth"),
- dict(name="tlc-src", path="/verif/spec/YaccSrc.tla", kind_free_text="YaccSrc.tla, LexSrc.tla, Totality.tla with trace specifications TraceYSrc, TraceLSrc, TraceTotal over documents generated by lib/genyacc.py, lib/genlex.py"),
+ dict(name="tlc-width", path="/verif/spec/Width.tla", kind_free_text="Width.tla, MC_Width, TraceWidth; WidthApa.tla (Apalache)"),
+ dict(name="tlc-src", path="/verif/spec/YaccSrc.tla", kind_free_text="YaccSrc.tla, LexSrc.tla, Totality.tla, Header.tla, LexParse.tla, YaccParse.tla, MarkMap.tla with trace specifications TraceYSrc, TraceLSrc, TraceTotal, TraceHeader, TraceLexParse, TraceYaccParse, TraceMarkMap and bounded models MC_Header, MC_LexParse, MC_YaccParse, MC_MarkMap over documents generated by lib/genyacc.py, lib/genlex.py, lib/p_hdr.py and their mutants"),
  dict(name="tlc-ctrt", path="/verif/spec/TraceCTRT.tla", kind_free_text="generated crate (lib/p_ctrt.py) + TraceCTRT.tla"),
  dict(name="tlc-pipe", path="/verif/spec/Pipeline.tla", kind_free_text="Pipeline.tla, OnceInit.tla, TracePipe.tla"),
 ]
